@@ -13,17 +13,17 @@ TECH = {
  "C04": "Kani/CBMC: per-impl harnesses generated from /repo's macro invocations, each over the entire source type; must-panic covers; two feature configurations",
  "C05": "Kani/CBMC: generated conversion harnesses (exactness in i128/u128), symbolic ASCII strings for FromStr, Display into a stack buffer",
  "C06": "Kani/CBMC: constructor output vs. oracle bytes over all arguments; must-panic covers for category mismatches and shorthand range errors",
- "C07": "Kani/CBMC: encoder vs. oracle over all messages; inversion from every scanner state (all 16 channels symbolic)",
+ "C07": "Kani/CBMC: encoder vs. oracle over all messages; inversion from every scanner state (all 16 channels symbolic) + the one-step closure lemma (every step from such a state leads to such a state) that makes those states all reachable states",
  "C08": "Kani/CBMC one-step induction: symbolic abstract observer state concretised through the public API, post-state compared via derived PartialEq",
  "C09": "Kani/CBMC: encoder slots vs. oracle over the full symbolic product",
- "C10": "Kani/CBMC: encode-then-feed from every family state of the scanner; literal running forms",
+ "C10": "Kani/CBMC: encode-then-feed from every family state of the scanner + the one-step closure lemma; literal running forms",
  "C11": "Kani/CBMC one-step induction with an observer taken from the property text; literal bounded histories as cross-check",
  "C12": "Kani/CBMC one-step induction (feed/poll) with symbolic clock and timeout via the mock-Instant hook; literal grammar sentences; encode/feed/poll round trip",
  "C13": "Kani/CBMC poll step with symbolic now/arrival/timeout over the whole Duration domain; two-instant feed comparison",
  "C14": "Kani/CBMC step with provenance clauses asserted on (pre-observer, event, real outputs)",
  "C15": "Kani/CBMC: frame condition of the inductive step (only the addressed channel's observer advances) + literal interleavings",
  "C16": "Kani/CBMC: non-contributing step leaves the derived-PartialEq state equal, from every family state; predicates over all 128 numbers",
- "C17": "Kani/CBMC: reset()==new()==default() from every family state; copy independence",
+ "C17": "Kani/CBMC: reset()==new()==default() from every family state + the one-step closure lemma of the CC14 and (N)RPN scanners; copy independence",
  "C18": "Kani/CBMC with std::alloc::{alloc,alloc_zeroed,realloc} stubbed to failing assertions (-Z stubbing) + Kani's panic/overflow checks over all harness domains",
  "C19": "Kani/CBMC: symbolic token streams through the real serde Deserialize/Serialize impls (features serde+serde_repr)",
 }
